@@ -937,7 +937,7 @@ def render_corruption_report(
         type=share_type.decode(),
         storage_index=si_s.decode(),
         share_number=shnum,
-        reason=reason.decode(),
+        reason=reason.decode("utf-8", "backslashreplace"),
     )
 
 def get_corruption_report_path(
